@@ -55,6 +55,9 @@ def gen_case(rng):
         ts.append(t)
         t += rng.choice([1.0, 1.0, 1.0, 0.5, 2.0, 1.25])
     c["ts"] = ts
+    # a configured tolerance (the gaps 0.5 / 1.25 are inside a tolerance of 0.5 and outside the default 0.1): reset() must keep
+    # the configuration, only the counters start again
+    c["tol"] = 0.5 if rng.random() < 0.4 else None
     return c
 
 
@@ -65,7 +68,7 @@ def run_impl(case):
     data, npre, n, ts = case["data"], case["npre"], case["n"], case["ts"]
 
     def mk():
-        spec = impl.make_spec("ond", text, vs, extra_decl=extra)
+        spec = impl.make_spec("ond", text, vs, extra_decl=extra, sampling=(1, "s", case["tol"]) if case.get("tol") else None)
         spec.parse()
         if case["pastify"]:
             spec.pastify()
@@ -115,7 +118,7 @@ def model(cases):
 
 def check_case(ctx, case, m):
     text, res = run_impl(case)
-    rep = {"spec": text, "formula": F.to_proto(case["f"]), "pastify": case["pastify"], "data": case["data"], "ts": case["ts"],
+    rep = {"tol": case.get("tol"), "spec": text, "formula": F.to_proto(case["f"]), "pastify": case["pastify"], "data": case["data"], "ts": case["ts"],
            "npre": case["npre"], "early_resets": case.get("early_resets", []), "n": case["n"], "asserts": [[nm, F.to_proto(b)] for nm, b in case["asserts"]] if case["asserts"] else None,
            "impl": res, "model_post_outputs": m}
     if res[0] != "ok":
@@ -174,7 +177,7 @@ def replay(ctx, obj):
         from .. import dense
         return dense.replay_reset(ctx, obj)
     c = {"stream": "replay", "f": F.from_proto(obj["formula"]), "pastify": obj["pastify"], "npre": obj["npre"], "n": obj["n"],
-         "npost": obj["n"] - obj["npre"], "ts": obj["ts"], "data": {k: [float(x) for x in v] for k, v in obj["data"].items()},
+         "npost": obj["n"] - obj["npre"], "ts": obj["ts"], "tol": obj.get("tol"), "data": {k: [float(x) for x in v] for k, v in obj["data"].items()},
          "asserts": [(nm, F.from_proto(b)) for nm, b in obj["asserts"]] if obj.get("asserts") else None,
          "early_resets": obj.get("early_resets", [])}
     m, = model([c])
